@@ -127,6 +127,49 @@ def rule_pb_grade(prop):
     return rule
 
 
+def _delegates(m, fi, ka, have, depth=0):
+    """A listed kernel that stores no coefficient itself but hands its graded arrays to a private helper (a module
+    function or a method of the same class that is not itself a listed kernel): the helper holds the recurrence and is
+    analysed in the kernel's place, its graded parameters being those that receive graded arrays.  -> [(name, analysis)]"""
+    if ka.stores or depth > 1:
+        return []
+    found = []
+    for c in walk_no_nested(fi.node):
+        if not isinstance(c, ast.Call):
+            continue
+        d = dotted_name(c.func)
+        if d is None:
+            continue
+        h = None
+        if '.' not in d:
+            t = m.resolve_dotted(fi.module, d)
+            if t is not None and t[0] == 'func':
+                h = t[1]
+        elif d.split('.')[0] in ('cls', 'self', fi.cls or '') and d.count('.') == 1 and fi.cls:
+            h = m.lookup_method(fi.cls, d.split('.')[1])
+        if h is None or not h.name.startswith('_') or h.name.startswith('__') or h.name in have or h is fi:
+            continue
+        if h.name in [x for names in GROUPS.values() for x in names]:
+            continue
+        params = h.value_params()
+        graded = set()
+        for i, a in enumerate(c.args):
+            if isinstance(a, ast.Name) and a.id in ka.gvars and i < len(params):
+                graded.add(params[i])
+        for k in c.keywords:
+            if k.arg and isinstance(k.value, ast.Name) and k.value.id in ka.gvars:
+                graded.add(k.arg)
+        if not graded:
+            continue
+        hka = KernelAnalysis(h, graded_params=graded, model=m)
+        if 'out' in graded and 'out' in hka.gvars:
+            hka._decl('out', 'out')
+        hka.run()
+        found.append((h.name, hka))
+        found.extend(_delegates(m, h, hka, have | {h.name}, depth + 1))
+    return found
+
+
 def analyse_all(ctx):
     if 'E2' in ctx.cache:
         return ctx.cache['E2']
@@ -145,6 +188,8 @@ def analyse_all(ctx):
                     raise AnalysisError('E2.anchor', ALGO + ':' + n, 'kernel vanished')
             ka = KernelAnalysis(fi, raw_params=RAW.get(n, ()), model=m).run()
             out[n] = (grp, ka)
+            for hname, hka in _delegates(m, fi, ka, set(out)):
+                out[n + '->' + hname] = (grp, hka)
     for n, (grp, graded) in UTPM_LEVEL.items():
         fi = m.lookup_method('UTPM', n)
         if fi is None:
@@ -155,6 +200,8 @@ def analyse_all(ctx):
                 ka._decl(g, 'in')
         ka.run()
         out['UTPM.' + n] = (grp, ka)
+        for hname, hka in _delegates(m, fi, ka, set(out)):
+            out['UTPM.' + n + '->' + hname] = (grp, hka)
     ctx.cache['E2'] = out
     return out
 
